@@ -360,7 +360,7 @@ func init() {
 		read := map[string]bool{}
 		recv := "h"
 		if len(f.Params) > 0 {
-			recv = f.Params[0].Name()
+			recv = canonParamName(f.Params[0])
 		}
 		rx := regexp.MustCompile(`\b` + recv + `\.(\w+)`)
 		for _, call := range w.callsTo(f, "crypto/merkle#HashFromByteSlices") {
@@ -404,7 +404,7 @@ func allocOf(v ssa.Value) *ssa.Alloc {
 
 func paramIndexByName(f *ssa.Function, name string) int {
 	for i, p := range f.Params {
-		if p.Name() == name {
+		if canonParamName(p) == name {
 			return i
 		}
 	}
